@@ -684,7 +684,7 @@ impl Check for FileSinkCheck {
         "fault_enumeration"
     }
     fn rule(&self) -> String {
-        "enumerated part: modes {Create, Overwrite, Append} x initial states {absent, empty, non-empty (12 bytes), non-empty (13 bytes: not a whole number of samples), directory, missing parent directory, dangling symbolic link} x {FileSink<u8>, NoCopyFileSink, FileSink<Float>} = 63 cells against the documented truth table (create fails iff the file exists; overwrite leaves exactly the new data; append keeps the old content (also what another writer appended after the sink was opened) and adds, creating the file if absent; directories and missing parents are errors). \
+        "enumerated part: modes {Create, Overwrite, Append} x initial states {absent, empty, non-empty (12 bytes), non-empty (13 bytes: not a whole number of samples), directory, missing parent directory, dangling symbolic link} x {FileSink<u8>, NoCopyFileSink, FileSink<Float>, FileSink<u8> whose stream never carries a sample} = 84 cells against the documented truth table (create fails iff the file exists; overwrite leaves exactly the new data; append keeps the old content (also what another writer appended after the sink was opened) and adds, creating the file if absent; directories and missing parents are errors). \
          seeded part: a child process (re-exec of the simulator) streams seeded data through the sink under a seeded feed schedule (4-8 KiB streams; one run in 30 a default-size stream fed more than 1 MiB); the fault plan kills it at the N-th write() on the sink's file after a torn length k (every write index and torn-length class is reachable), or injects short writes / one EINTR without a crash. After each work() the child records how many samples were consumed (acknowledged). Parent oracle: the file is a prefix of pre-existing content + serialised stream and holds at least the acknowledged samples; without a crash it is complete. \
          non-trivial = the child was killed inside a write that followed at least one acknowledged work(); distinct = (mode, sink, write index, torn length, data size)".into()
     }
@@ -704,14 +704,14 @@ impl Check for FileSinkCheck {
         }
     }
     fn fixed_cases(&self) -> u64 {
-        63
+        84
     }
     fn required(&self, _tier: Tier) -> Vec<&'static str> {
         vec!["fault:crash_at_write", "fault:kill_between_calls", "fault:torn_write", "fault:short_write", "fault:eintr_write", "fault:write_error", "crash_after_ack", "mode_cells"]
     }
     fn run(&self, src: &mut Src, ctx: &mut RunCtx) -> RunResult {
-        let sel = src.draw(64);
-        let r = if sel < 63 { mode_cell(sel as usize, ctx) } else { crash_run(src, ctx) };
+        let sel = src.draw(85);
+        let r = if sel < 84 { mode_cell(sel as usize, ctx) } else { crash_run(src, ctx) };
         for v in &src.log {
             ctx.hash.add(*v);
         }
@@ -727,12 +727,15 @@ fn mode_cell(cell: usize, ctx: &mut RunCtx) -> RunResult {
     let state = (cell / 3) % 7;
     let nocopy = cell / 21 == 1;
     let float = cell / 21 == 2;
+    // A sink whose stream never carries a sample: "exactly the new data" is then
+    // an empty file (overwrite) or the old content (append).
+    let silent = cell / 21 == 3;
     ctx.count("mode_cells");
     ctx.nontrivial = true;
     ctx.hash.add(cell as u64 ^ 0xc17);
     let dir = tempfile::tempdir().map_err(|e| Violation::new("HARNESS-PANIC tempdir", e.to_string()))?;
     let (path, pre) = setup_initial(dir.path(), state);
-    let desc = format!("{} mode {:?} on {}", if nocopy { "NoCopyFileSink" } else if float { "FileSink<Float>" } else { "FileSink<u8>" }, ["Create", "Overwrite", "Append"][mode], INITIAL[state]);
+    let desc = format!("{} mode {:?} on {}", if nocopy { "NoCopyFileSink" } else if float { "FileSink<Float>" } else if silent { "FileSink<u8> (no samples)" } else { "FileSink<u8>" }, ["Create", "Overwrite", "Append"][mode], INITIAL[state]);
     ctx.ev(|| desc.clone());
     if ctx.sample.is_none() {
         ctx.sample = Some(json!({"cell": desc}));
@@ -795,9 +798,11 @@ fn mode_cell(cell: usize, ctx: &mut RunCtx) -> RunResult {
                 Ok(Err(e)) => (false, e.to_string()),
                 Ok(Ok(mut b)) => {
                     late(&path);
-                    let mut wb = w.write_buf().unwrap();
-                    wb.slice()[..8].copy_from_slice(&new_data);
-                    wb.produce(8, &[]);
+                    if !silent {
+                        let mut wb = w.write_buf().unwrap();
+                        wb.slice()[..8].copy_from_slice(&new_data);
+                        wb.produce(8, &[]);
+                    }
                     for _ in 0..3 {
                         if let Err(e) = b.work() {
                             return (false, format!("work failed: {e}"));
@@ -815,6 +820,8 @@ fn mode_cell(cell: usize, ctx: &mut RunCtx) -> RunResult {
         b"abc\nde\n".to_vec()
     } else if float {
         [1.0f32.to_le_bytes(), (-2.5f32).to_le_bytes()].concat()
+    } else if silent {
+        Vec::new()
     } else {
         new_data.clone()
     };
